@@ -59,6 +59,7 @@ def run(ctx):
         ok = R.exc is not None and not muts and len(R.mineral.attrs["orientations"]) == R.nsnap and len(R.mineral.attrs["fractions"]) == R.nsnap
         ctx.ob("C01.fail-untouched", f"solver failure at step {fail_at}", ok,
                f"exception={R.exc!r} history mutations={[(k, w) for _, k, w, _ in muts]}", loc)
+    rhs_manifold(ctx, loc)
     who_may_write(ctx)
     initial(ctx)
     ctx.floor("C01.append-once", 2)
@@ -74,8 +75,73 @@ RULES = {
     "C01.shape": "appended snapshot shapes are (n,3,3) and (n,)",
     "C01.layout": "y_start = [F row-major | orientations | fractions]; the RHS, the GBS write-back and extract_vars use the same partition and order",
     "C01.who-may-write": "every function in the package that mutates or rebinds .orientations/.fractions of a Mineral is in the allowed-writer table",
+    "C01.rhs-manifold": "on every exit of the ODE right-hand side (generic path and each data-dependent early return) the orientation block of grain g is "
+                        "c·(rate returned by core.derivatives for g) + A_g·S with one scalar c for the grain and S + S^T == 0, A_g being the grain's orientation in the "
+                        "solver state: first-order conservation of orthonormality (the kernel's own rates are of that form by C03)",
     "C01.initial": "default initial fractions are n copies of 1/n (sum == 1); the RNG of the default orientations is seeded from self.seed; no other RNG on the constructor path",
 }
+
+
+def rhs_manifold(ctx, loc):
+    from .c03 import skew_form
+    n_exits = 0
+    for phase, fabric, regime in (("olivine", "olivine_A", "matrix_dislocation"), ("enstatite", "enstatite_AB", "frictional_yielding"),
+                                  ("olivine", "olivine_B", "matrix_diffusion"), ("olivine", "olivine_D", "max_viscosity")):
+        N = 2
+        R = driver.run_update(ctx, phase=phase, fabric=fabric, regime=regime, N=N, nsteps=1, assemblage=("olivine", "enstatite"))
+        tag0 = f"{fabric}:{regime}"
+        if R.exc is not None or not R.rhs_calls:
+            ctx.ob("C01.rhs-manifold", tag0, False, f"update raised {R.exc!r}", loc)
+            continue
+        t, y, res = R.rhs_calls[0]
+        exits = [("generic path", res, loc)]
+        for g, o, gl, fn in R.I.guards:
+            if fn.endswith("eval_rhs") and o[0] == "return" and isinstance(o[1], np.ndarray):
+                exits.append((f"early return under {short(g, 60)}", o[1], gl))
+        for label, v, gl in exits:
+            n_exits += 1
+            tag = f"{tag0}:{label}"
+            if not isinstance(v, np.ndarray) or v.shape != y.shape:
+                ctx.ob("C01.rhs-manifold", tag, False, f"right-hand side has shape {getattr(v, 'shape', None)}, state has {y.shape}", gl)
+                continue
+            ok, why = True, "orientation block = c·(kernel rate) + A·S, S skew"
+            for g in range(N):
+                X = np.array([alg.unfold_all(lift(c)) for c in v[9 + 9 * g: 18 + 9 * g]], dtype=object).reshape(3, 3)
+                Ag = y[9 + 9 * g: 18 + 9 * g].reshape(3, 3)
+                stubs = {a for c in X.flat for a in alg.atoms_of(c, deep=True) if a.kind == "sym" and str(a.args[0]).startswith("dA")}
+                Rm = np.array([alg.subst(c, {a: ZERO for a in stubs}) if stubs else c for c in X.flat], dtype=object).reshape(3, 3)
+                K = X - Rm
+                if any(lift(c).t for c in K.flat):
+                    mine = {}
+                    for a in stubs:
+                        mine[str(a.args[0])] = a
+                    c0 = None
+                    for p_ in range(3):
+                        for q_ in range(3):
+                            names = [n_ for n_ in mine if n_.endswith(f"[{g},{p_},{q_}]")]
+                            if len(names) != 1:
+                                ok, why = False, f"grain {g}: cell [{p_},{q_}] does not use the kernel's rate for that cell"
+                                break
+                            d = E.atom(mine[names[0]])
+                            c = alg.derive(lift(K[p_, q_]), {mine[names[0]]: ONE})
+                            if alg.decide(lift(K[p_, q_]), c * d)[0] != "equal" or alg.depends(c, stubs):
+                                ok, why = False, f"grain {g}: cell [{p_},{q_}] = {short(K[p_, q_], 80)} is not a multiple of the kernel's rate for that cell"
+                                break
+                            if c0 is None:
+                                c0 = c
+                            elif alg.decide(c, c0)[0] != "equal":
+                                ok, why = False, f"grain {g}: cells of one orientation matrix are scaled differently ({short(c, 40)} vs {short(c0, 40)})"
+                                break
+                        if not ok:
+                            break
+                if ok and any(lift(c).t for c in Rm.flat):
+                    okr, whyr = skew_form(Rm, Ag, prefix=str(next(iter(alg.atoms_of(Ag[0, 0]))).args[0]).split("[")[0] + "[")
+                    if not okr:
+                        ok, why = False, f"grain {g}: part of the rate that does not come from the kernel: {whyr}"
+                if not ok:
+                    break
+            ctx.ob("C01.rhs-manifold", tag, ok, why, gl)
+    ctx.floor("C01.rhs-manifold", 4)
 
 
 def appends(ctx, R, N, loc, tagx=""):
